@@ -454,6 +454,18 @@ fn file_ops(name: &'static str, canon_bytes: &[u8], other: &[(&str, Vec<u8>)], c
         b[p] ^= 1u8 << r.below(8);
         v.push((format!("{name}:bitflip"), vec![Op::Set(name, b)]));
     }
+    // structured flips: one in the trailing 32 bytes (for verifier-only data that is the circuit digest - the field a
+    // "compare field by field and forget one" pin would skip), one in the leading 8 bytes (length prefix / first field)
+    if n > 40 {
+        let mut b = canon_bytes.to_vec();
+        let p = n - 1 - r.below(32) as usize;
+        b[p] ^= 1u8 << r.below(8);
+        v.push((format!("{name}:bitflip-tail"), vec![Op::Set(name, b)]));
+        let mut b = canon_bytes.to_vec();
+        let p = r.below(8) as usize;
+        b[p] ^= 1u8 << r.below(8);
+        v.push((format!("{name}:bitflip-head"), vec![Op::Set(name, b)]));
+    }
     for (i, (t, o)) in other.iter().enumerate() {
         if !lean || i == 0 {
             v.push((format!("{name}:other-{t}"), vec![Op::Set(name, o.clone())]));
@@ -468,8 +480,11 @@ fn file_ops(name: &'static str, canon_bytes: &[u8], other: &[(&str, Vec<u8>)], c
 /// (each of which makes the loader rebuild a recursive circuit)
 fn sample_heavy(all: &[(String, Vec<Op>)], k: usize, r: &mut Rng) -> Vec<(String, Vec<Op>)> {
     let cheap = |t: &str| t.ends_with("oversized-sparse") || t.ends_with("missing");
-    let mut out: Vec<(String, Vec<Op>)> = all.iter().filter(|(t, _)| cheap(t)).cloned().collect();
-    let mut heavy: Vec<(String, Vec<Op>)> = all.iter().filter(|(t, _)| !cheap(t)).cloned().collect();
+    // the structured tail flips are always kept when anything heavy is sampled at all
+    let must = |t: &str| k > 0 && t.ends_with("bitflip-tail");
+    let mut out: Vec<(String, Vec<Op>)> = all.iter().filter(|(t, _)| cheap(t) || must(t)).cloned().collect();
+    let mut heavy: Vec<(String, Vec<Op>)> = all.iter().filter(|(t, _)| !cheap(t) && !must(t)).cloned().collect();
+    let k = k + out.iter().filter(|(t, _)| must(t)).count();
     while !heavy.is_empty() && out.iter().filter(|(t, _)| !cheap(t)).count() < k {
         let i = r.below(heavy.len() as u64) as usize;
         out.push(heavy.swap_remove(i));
